@@ -192,7 +192,11 @@ m("C03", "other",
   "whole file (0,|F|), the sender answers with exactly the original Metadata PDU followed by exactly the "
   "original tiles (C03_sender_serves_metadata_and_file, chunkPdus_eq_tiles), the receiver creates the "
   "destination (C03_metadata_late), stores the tiles — each shrinks the lost range from its head "
-  "(C03_resent_tiles) —, verifies with the last one (C03_resent_last_tile) and completes. Building blocks are stated from states "
+  "(C03_resent_tiles) —, verifies with the last one (C03_resent_last_tile) and completes. "
+  "C03_end_to_end_last_tile_loss: the LAST tile (any length up to the segment length) is lost — the EOF reveals "
+  "the missing tail, one NAK requests exactly [n*seg, |F|), the sender answers with exactly the lost tile "
+  "(C03_sender_serves_short_request, C03_recovery_from_waiting_short); with C03_end_to_end_single_loss: any one "
+  "File Data PDU, whatever its position. Building blocks are stated from states "
   "(C03_prefix_single_loss, C03_recovery_from_waiting, C03_closing*), so they compose. The "
   "liveness claim for arbitrary <= K fault schedules (recovery within the limits) is NOT a theorem: it is "
   "explored on implementation and model — exhaustively for every schedule of one or two dropped PDUs per "
